@@ -51,15 +51,14 @@ def parseAppEv : List String → Option AppEv
 def parseList (s : String) : Option (List Nat) :=
   if s = "-" then some [] else (s.splitOn ",").mapM String.toNat?
 
-/-- `flags` = four digits: guarded, ctorRuns, baseRoutes, genericExecute -/
-def parseCls (name port proto flags : String) : Option Cls :=
+/-- `cid` = the Python class; `flags` = three digits: ctorRuns, baseRoutes, genericExecute -/
+def parseCls (cid name port proto flags : String) : Option Cls :=
   match port.toNat?, parseProto proto, flags.toList with
-  | some p, some pr, [g, r, b, x] =>
-    match parseBool (String.singleton g), parseBool (String.singleton r), parseBool (String.singleton b),
-          parseBool (String.singleton x) with
-    | some g, some r, some b, some x =>
-      some { name := name, port := p, proto := pr, guarded := g, ctorRuns := r, baseRoutes := b, genericExecute := x }
-    | _, _, _, _ => none
+  | some p, some pr, [r, b, x] =>
+    match parseBool (String.singleton r), parseBool (String.singleton b), parseBool (String.singleton x) with
+    | some r, some b, some x =>
+      some { cid := cid, name := name, port := p, proto := pr, ctorRuns := r, baseRoutes := b, genericExecute := x }
+    | _, _, _ => none
   | _, _, _ => none
 
 def showOptInt : Option Int → String
@@ -92,7 +91,7 @@ def dump (n : Node) : String :=
   let pm := ",".intercalate (sortStr (n.portMap.map fun ((p, pr), v) => s!"{p}/{showProto pr}={v}"))
   let op := ",".intercalate ((sortNat n.openPorts.eraseDups).map toString)
   s!"{showPower n.power} S[{" ".intercalate svc}] A[{" ".intercalate app}] SW[{kv n.software}] PM[{pm}] " ++
-  s!"SR[{kv n.svcRoutes}] AR[{kv n.appRoutes}] OPEN[{op}]"
+  s!"SR[{kv n.svcRoutes}] AR[{kv n.appRoutes}] CM[{",".intercalate (sortStr (n.classMap.map fun (k, v) => s!"{k}={v}"))}] OPEN[{op}]"
 
 def step (n : Node) (ws : List String) : Node × String :=
   let run (op : Op) : Node × String := let (n', o) := n.step op; (n', showOut o)
@@ -101,19 +100,19 @@ def step (n : Node) (ws : List String) : Node × String :=
     match parsePower p, up.toInt?, down.toInt? with
     | some p, some up, some down => ({ power := p, upDur := up, downDur := down }, "ok")
     | _, _, _ => (n, "bad-op")
-  | [k, name, port, proto, guarded, listen, health, fixDur] =>
-    match parseCls name port proto guarded, parseList listen, parseHealth health, fixDur.toInt? with
-    | some c, some l, some h, some f =>
-      if k = "isvc" then run (.installSvc c l h f)
-      else if k = "iapp" then run (.installApp c l h f)
-      else (n, "bad-op")
-    | _, _, _, _ => (n, "bad-op")
-  | ["uninst", name] => run (.uninstall name)
   | ["rinst", name, "-"] => run (.reqInstall name none)
-  | ["rinst", name, port, proto, guarded, listen] =>
-    match parseCls name port proto guarded, parseList listen with
+  | ["rinst", name, cid, cname, port, proto, flags, listen] =>
+    match parseCls cid cname port proto flags, parseList listen with
     | some c, some l => run (.reqInstall name (some (c, l)))
     | _, _ => (n, "bad-op")
+  | [k, cid, name, port, proto, flags, cfg, listen, health, fixDur] =>
+    match parseCls cid name port proto flags, parseBool cfg, parseList listen, parseHealth health, fixDur.toInt? with
+    | some c, some g, some l, some h, some f =>
+      if k = "isvc" then run (.installSvc c g l h f)
+      else if k = "iapp" then run (.installApp c g l h f)
+      else (n, "bad-op")
+    | _, _, _, _, _ => (n, "bad-op")
+  | ["uninst", name] => run (.uninstall name)
   | ["runinst", name] => run (.reqUninstall name)
   | ["sreq", name, r] =>
     match parseSvcReq r with
@@ -122,6 +121,10 @@ def step (n : Node) (ws : List String) : Node × String :=
   | ["areq", name, r] =>
     match parseAppReq r with
     | some r => run (.appReq name r)
+    | none => (n, "bad-op")
+  | ["sapi", u, "send"] | ["aapi", u, "send"] =>
+    match u.toNat? with
+    | some u => run (.send u)
     | none => (n, "bad-op")
   | "sapi" :: u :: ev =>
     match u.toNat?, parseSvcEv ev with
